@@ -60,6 +60,8 @@ namespace occa {
       lex::skipWhitespace(c);
     }
 
+    // A leading 0 followed by more digits is an octal literal
+    const bool startsWithZero = (*c == '0');
     if (*c == '0') {
       ++digits;
       ++c;
@@ -158,7 +160,20 @@ namespace occa {
         // The literal takes the first type that fits:
         //   int, long   or with U:   unsigned int, unsigned long
         const int64_t signedValue_ = (int64_t) value_;
-        if ((longs == 0) && !unsigned_ &&
+        const bool octal = (startsWithZero && (digits > 1) && !negative);
+        if (octal) {
+          // Like hex and binary, an octal literal takes the first type that fits:
+          //   int, unsigned int, long, unsigned long
+          if ((longs == 0) && !unsigned_ && (value_ <= 0x7FFFFFFFULL)) {
+            p = (int32_t) value_;
+          } else if ((longs == 0) && (value_ <= 0xFFFFFFFFULL)) {
+            p = (uint32_t) value_;
+          } else if (!unsigned_ && (value_ <= 0x7FFFFFFFFFFFFFFFULL)) {
+            p = (int64_t) value_;
+          } else {
+            p = (uint64_t) value_;
+          }
+        } else if ((longs == 0) && !unsigned_ &&
             (-0x80000000LL <= signedValue_) && (signedValue_ <= 0x7FFFFFFFLL)) {
           p = (int32_t) value_;
         } else if ((longs == 0) && unsigned_ && (value_ <= 0xFFFFFFFFULL)) {
